@@ -491,7 +491,10 @@ func decodeResponseBody[R any](simpleAPISelf *SimpleAPIDef, response *APIRespons
 
 	var tempTarget interface{}
 	tempTarget, response.Err = simpleAPISelf.ResponseDeserializer(responseBody, target)
-	response.TargetObject = tempTarget.(*R)
+	// A failing deserializer may return nothing at all
+	if typedTarget, ok := tempTarget.(*R); ok {
+		response.TargetObject = typedTarget
+	}
 	return response
 }
 
